@@ -11,17 +11,12 @@ print(r.stdout.strip())
 confirmed = "CONFIRMED" in r.stdout.splitlines()[-1] and "NOT-" not in r.stdout.splitlines()[-1]
 if not confirmed:
     sys.exit("not confirmed; not kept")
-assert subprocess.run(["git", "-C", "/repo", "status", "--porcelain"], capture_output=True, text=True).stdout == ""
-subprocess.run(["git", "-C", "/repo", "apply", f"{src}/patch.diff"], check=True)
+sys.path.insert(0, "/verif/tools")
+import seedlib
 results = {}
-try:
+with seedlib.patched(f"{src}/patch.diff") as (env, how):
     for c in [prop] + extra:
-        for tier in ("quick",):
-            p = subprocess.run(["./check", c, "--tier", tier], cwd="/verif", capture_output=True, text=True)
-            mech = [l for l in p.stdout.splitlines() if l.startswith("MECHANISMS")]
-            results[f"{c}/{tier}"] = {"exit": p.returncode, "mechanisms": json.loads(mech[0][11:]) if mech else None}
-finally:
-    subprocess.run(["git", "-C", "/repo", "checkout", "--", "."], check=True)
+        results[f"{c}/quick"] = seedlib.run_check(env, c)
 dst = f"/verif/seeded/{sid}"
 os.makedirs(dst, exist_ok=True)
 shutil.copy(f"{src}/patch.diff", dst)
@@ -32,7 +27,7 @@ meta = {"id": sid, "property": prop, "origin": "fresh sub-agent given only the p
         "needs_to_manifest": needs, "demonstration": demo,
         "confirmed": r.stdout.strip().splitlines()[-2],
         "what_i_ran": [f"tools/confirm_seed.sh {sid} {demo}  (fresh worktree: demo passes without the change, fails with it, 272 tests pass with it)",
-                       "git -C /repo apply seeded/%s/patch.diff; ./check <Cnn> --tier quick; git -C /repo checkout -- ." % sid],
+                       how],
         "checks": results,
         "caught_by": [k for k, v in results.items() if v["exit"] == 1]}
 json.dump(meta, open(f"{dst}/meta.json", "w"), indent=1)
